@@ -156,6 +156,16 @@ def typestate(ctx, db):
                 obj = objof(p)
                 if obj is None:
                     continue
+                # a whole-member copy reads its source: X._ext may be read only in heap mode of X, X._local only in inline mode of X
+                rhs_ = it.get('rhs') or ''
+                if it.k == 'write' and re.search(r'\._(ext|local)$', rhs_) and objof(rhs_):
+                    so = objof(rhs_)
+                    want = rhs_.endswith('_ext')
+                    known = heap.get(so)
+                    if known is None and so in eq.values():
+                        known = next((heap.get(k_) for k_, v_ in eq.items() if v_ == so and heap.get(k_) is not None), None)
+                    if known is not want:
+                        bad = ('%s storage of %s is copied while its storage mode is not known to be %s (the two alternatives differ in size: handles are lost or garbage is taken over)' % ('heap' if want else 'inline', so, 'heap' if want else 'inline'), tr, i); break
                 if it.k == 'delete' and re.search(r'\._ext\._handles$', p):
                     if heap.get(obj) is not True:
                         bad = ('delete[] of %s while the storage mode is not known to be heap (would free inline bytes / garbage)' % p, tr, i); break
@@ -304,6 +314,8 @@ def consumers_clear(ctx, db):
                     bad = bad or ('the handle to transfer to is not popped exactly once before the clear', tr)
             elif ci:
                 bad = bad or ('normal-mode edge clears although its handles are only run by the nested call', tr)
+            elif not act and all_indices(tr, lambda ev: ev.k == 'call' and norm(ev.get('callee')) == 'cocls::suspend_point::pop' and ev.get('depth') == 0):
+                bad = bad or ('the normal-mode edge takes a handle out of the suspend point before it delegates to the nested call: that handle is resumed by nobody', tr)
         if na == 0 and not bad:
             bad = ('no coroutine-mode edge', trs[0] if trs else [])
         ctx.ob(rid, f, f['key'], bad is None, 'await_suspend: pop once, queue the rest, clear once' + ('' if not bad else ' -- ' + bad[0]), desc=bad[0] if bad else None)
